@@ -29,8 +29,8 @@ NPROC = os.cpu_count() or 16
 
 TIERS = {
     # explore: list of (first worker id, workers, runs per worker, concurrency bias %, restart-before-run %)
-    "quick": dict(explore=[(0, 10, 3000, 30, 75), (50, 1, 2000, 30, 10), (60, 1, 2000, 30, 1), (100, 4, 1400, 90, 75)], seconds_cap=90, sweeps=1, hash_orders=8, determinism_runs=150, miri_seeds=0, max_minimise=3, fresh_sample=48, hot_keys=2, stress=(300, 5, 14), longrun=(2, 200000)),
-    "thorough": dict(explore=[(0, 10, 3000, 30, 75), (50, 1, 2000, 30, 10), (60, 1, 2000, 30, 1), (100, 4, 1400, 90, 75), (1000, 10, 40000, 30, 75), (1050, 1, 30000, 30, 10), (1060, 1, 30000, 30, 1), (2000, 4, 12000, 90, 75)], seconds_cap=540, sweeps=8, hash_orders=64, determinism_runs=400, miri_seeds=16, max_minimise=6, fresh_sample=256, hot_keys=8, stress=(300, 8, 150), longrun=(4, 1200000)),
+    "quick": dict(explore=[(0, 10, 3000, 30, 75), (50, 1, 2000, 30, 10), (60, 1, 2000, 30, 1), (61, 1, 1200, 70, 0, 9000), (62, 1, 800, 70, 0, 70000), (100, 4, 1400, 90, 75)], seconds_cap=90, sweeps=1, hash_orders=8, determinism_runs=150, miri_seeds=0, max_minimise=3, fresh_sample=48, hot_keys=2, stress=(300, 5, 14), longrun=(2, 200000, 0)),
+    "thorough": dict(explore=[(0, 10, 3000, 30, 75), (50, 1, 2000, 30, 10), (60, 1, 2000, 30, 1), (61, 1, 1200, 70, 0, 9000), (62, 1, 1200, 70, 0, 70000), (100, 4, 1400, 90, 75), (1000, 10, 40000, 30, 75), (1050, 1, 30000, 30, 10), (1060, 1, 30000, 30, 1), (1061, 1, 20000, 70, 0, 20000), (1062, 1, 20000, 70, 0, 140000), (1063, 1, 20000, 70, 0, 600000), (2000, 4, 12000, 90, 75)], seconds_cap=540, sweeps=8, hash_orders=64, determinism_runs=400, miri_seeds=16, max_minimise=6, fresh_sample=256, hot_keys=8, stress=(300, 8, 150), longrun=(4, 1200000, 1)),
 }
 
 
@@ -379,10 +379,12 @@ def minimise_inner(sim, text, viol, max_replays):
     # 3. simpler schedule: sequential if the violation survives
     seq = [{"attrs": {k: v for k, v in dict(r["attrs"], policy="seq", sched="0").items() if k != "trace"}, "ops": r["ops"]} for r in runs]
     budget[0] -= 1
-    if ok(seq):
+    if not out_of_time() and ok(seq):
         runs = seq
     # 4. fewer threads: fold everything of a run into one thread, in order
     for ri in range(len(runs)):
+        if out_of_time():
+            break
         tids = sorted(set(t for t, _ in runs[ri]["ops"]))
         if len(tids) > 1:
             folded = [dict(r) for r in runs]
@@ -416,7 +418,7 @@ def minimise_inner(sim, text, viol, max_replays):
     # 5. default hash seed if it does not matter
     plain = [{"attrs": dict(r["attrs"], hash="0"), "ops": r["ops"]} for r in runs]
     budget[0] -= 1
-    if ok(plain):
+    if not out_of_time() and ok(plain):
         runs = plain
     # fix the schedule that the final script actually takes
     good, info = shows(sim, render_script(runs), viol)
@@ -623,15 +625,19 @@ def run_check(tier, seed):
     out = os.path.join(work, "hotkey.json")
     jobs.append(("hotkey", [BIN, "hotkey", "--seed", str(seed), "--keys", str(cfg["hot_keys"]), "--out", out], out))
     # long-history sub-check: the same N distinct queries in one long-lived process, one order per process
-    (lr_procs, lr_n) = cfg["longrun"]
+    # (the last lr_mt of them deal every block of 4,096 queries to 4 threads under the random-walk scheduler)
+    (lr_procs, lr_n, lr_mt) = cfg["longrun"]
+    lr_threads = {i: (4 if i >= lr_procs - lr_mt else 1) for i in range(lr_procs)}
     for i in range(lr_procs):
         out = os.path.join(work, "longrun_%d.json" % i)
-        jobs.append(("longrun%d" % i, [BIN, "longrun", "--seed", str(seed), "--index", str(i), "--n", str(lr_n), "--out", out, "--answers", os.path.join(work, "longrun_%d.txt" % i)], out))
+        jobs.append(("longrun%d" % i, [BIN, "longrun", "--seed", str(seed), "--index", str(i), "--n", str(lr_n), "--threads", str(lr_threads[i]), "--out", out, "--answers", os.path.join(work, "longrun_%d.txt" % i)], out))
     explore_ids = []
-    for (w0, nw, runs, conc, rpct) in cfg["explore"]:
+    for spec in cfg["explore"]:
+        (w0, nw, runs, conc, rpct) = spec[:5]
+        prewarm = spec[5] if len(spec) > 5 else 0
         for w in range(w0, w0 + nw):
             out = os.path.join(work, "explore_%d.json" % w)
-            jobs.append(("explore%d" % w, [BIN, "explore", "--seed", str(seed), "--worker", str(w), "--runs", str(runs), "--seconds", str(cfg["seconds_cap"]), "--conc", str(conc), "--reset-pct", str(rpct), "--sample-fresh", str(cfg["fresh_sample"]), "--watchdog", "20", "--out", out], out))
+            jobs.append(("explore%d" % w, [BIN, "explore", "--seed", str(seed), "--worker", str(w), "--runs", str(runs), "--seconds", str(cfg["seconds_cap"]), "--conc", str(conc), "--reset-pct", str(rpct), "--sample-fresh", str(cfg["fresh_sample"]), "--watchdog", "20", "--prewarm", str(prewarm), "--out", out], out))
             explore_ids.append(w)
     # stress sub-check: no baton, the OS schedules the threads (reaches lock-free, allocation-free races)
     (sw0, snw, ssecs) = cfg["stress"]
@@ -754,8 +760,8 @@ def run_check(tier, seed):
             bad.sort()
             for (latest, key, rows) in bad[:3]:
                 # most suspicious first: the process in which the query came latest
-                cands.append({"obligation": "A", "key": key, "detail": "long-history processes disagree: " + ", ".join("process %d answered %s at position %d" % (ix, ans, at) for (at, ix, ans) in rows), "history": "run threads=1 policy=seq sched=0 hash=0 reset=1\nt0 q %s\nend\n" % key, "source": "long-history sub-check", "prefix_of": [("longrun", seed, ix, at, longruns[0]["n"]) for (at, ix, ans) in rows]})
-            LONG["stats"] = {"processes": len(longruns), "orders": ["forwards", "backwards", "shuffled", "shuffled"][:len(longruns)], "queries_per_process": longruns[0]["n"], "evaluations": sum(d["evaluations"] for d in longruns), "refused_per_process": longruns[0]["refused"], "queries_per_family": longruns[0]["queries_per_family"], "month_memo_entries_at_end": [d["month_memo_entries_after"] for d in longruns], "answers_that_differ_between_processes": len(bad), "wall_s": [d["wall_s"] for d in longruns]}
+                cands.append({"obligation": "A", "key": key, "detail": "long-history processes disagree: " + ", ".join("process %d answered %s at position %d" % (ix, ans, at) for (at, ix, ans) in rows), "history": "run threads=1 policy=seq sched=0 hash=0 reset=1\nt0 q %s\nend\n" % key, "source": "long-history sub-check", "prefix_of": [("longrun", seed, ix, at, ["--n", str(longruns[0]["n"]), "--threads", str(lr_threads[ix])]) for (at, ix, ans) in rows]})
+            LONG["stats"] = {"processes": len(longruns), "orders": ["forwards", "backwards", "shuffled", "shuffled"][:len(longruns)], "threads_per_process": [d.get("threads", 1) for d in longruns], "queries_per_process": longruns[0]["n"], "evaluations": sum(d["evaluations"] for d in longruns), "refused_per_process": longruns[0]["refused"], "queries_per_family": longruns[0]["queries_per_family"], "month_memo_entries_at_end": [d["month_memo_entries_after"] for d in longruns], "answers_that_differ_between_processes": len(bad), "wall_s": [d["wall_s"] for d in longruns]}
 
     # hash-order sub-check: every process (own hasher seed from its first instruction on) must give
     # the answers of process 0 (seed 0, which is also what the cold singleton uses)
@@ -820,9 +826,11 @@ def run_check(tier, seed):
         for ans, w, run in lst:
             if ans != coldans:
                 # re-run that worker up to the first evaluation of the key to obtain its history
-                (w0, nw, runs_, conc, rpct) = [e for e in cfg["explore"] if e[0] <= w < e[0] + e[1]][0]
+                spec_ = [e for e in cfg["explore"] if e[0] <= w < e[0] + e[1]][0]
+                (w0, nw, runs_, conc, rpct) = spec_[:5]
+                prewarm_ = spec_[5] if len(spec_) > 5 else 0
                 out = os.path.join(work, "report_%d.json" % w)
-                subprocess.run([BIN, "explore", "--seed", str(seed), "--worker", str(w), "--runs", str(run + 1), "--conc", str(conc), "--reset-pct", str(rpct), "--sample-fresh", "0", "--report-key", k, "--out", out], stdout=subprocess.PIPE, stderr=subprocess.PIPE, timeout=1200)
+                subprocess.run([BIN, "explore", "--seed", str(seed), "--worker", str(w), "--runs", str(run + 1), "--conc", str(conc), "--reset-pct", str(rpct), "--prewarm", str(prewarm_), "--sample-fresh", "0", "--report-key", k, "--out", out], stdout=subprocess.PIPE, stderr=subprocess.PIPE, timeout=1200)
                 d = json.load(open(out))
                 for v in d["violations"]:
                     if v["obligation"] == "X" and v["key"] == k:
@@ -858,9 +866,11 @@ def run_check(tier, seed):
         if c[0] + c[1] != ans:
             fresh_bad.append((k, ans, w, run, c[0] + c[1]))
     for k, ans, w, run, coldans in fresh_bad[:3]:
-        (w0, nw, runs_, conc, rpct) = [e for e in cfg["explore"] if e[0] <= w < e[0] + e[1]][0]
+        spec_ = [e for e in cfg["explore"] if e[0] <= w < e[0] + e[1]][0]
+        (w0, nw, runs_, conc, rpct) = spec_[:5]
+        prewarm_ = spec_[5] if len(spec_) > 5 else 0
         out = os.path.join(work, "report_f_%d.json" % w)
-        subprocess.run([BIN, "explore", "--seed", str(seed), "--worker", str(w), "--runs", str(run + 1), "--conc", str(conc), "--reset-pct", str(rpct), "--sample-fresh", "0", "--report-key", k, "--report-run", str(run), "--out", out], stdout=subprocess.PIPE, stderr=subprocess.PIPE, timeout=1200)
+        subprocess.run([BIN, "explore", "--seed", str(seed), "--worker", str(w), "--runs", str(run + 1), "--conc", str(conc), "--reset-pct", str(rpct), "--prewarm", str(prewarm_), "--sample-fresh", "0", "--report-key", k, "--report-run", str(run), "--out", out], stdout=subprocess.PIPE, stderr=subprocess.PIPE, timeout=1200)
         try:
             d = json.load(open(out))
         except Exception:  # noqa
@@ -1015,12 +1025,12 @@ def sweep_candidate(v, d):
         hist = "run threads=1 policy=seq sched=0 hash=0 reset=1\nt0 q LM.from_ym %s %s\nt0 q %s\nend\n" % (m.group(1), m.group(2), key)
     if hist is None:
         hist = "run threads=1 policy=seq sched=0 hash=0 reset=1\nt0 q %s\nt0 q %s\nend\n" % (key, key)
-    return {"obligation": v["obligation"], "key": key, "detail": "sweep %d position %d: answered %s there; asked again now %s, expected %s" % (d["index"], v["position"], v.get("got_class", "?"), v.get("got", "")[:120], v.get("expected", "")[:120]), "history": hist, "source": "sweep %d" % d["index"], "prefix_of": [("sweep", d["seed"], d["index"], v["position"], 0)]}
+    return {"obligation": v["obligation"], "key": key, "detail": "sweep %d position %d: answered %s there; asked again now %s, expected %s" % (d["index"], v["position"], v.get("got_class", "?"), v.get("got", "")[:120], v.get("expected", "")[:120]), "history": hist, "source": "sweep %d" % d["index"], "prefix_of": [("sweep", d["seed"], d["index"], v["position"], [])]}
 
 
-def history_prefix(work, mode, seed, index, position, n):
+def history_prefix(work, mode, seed, index, position, extra):
     out = os.path.join(work, "%s_prefix_%d_%d.txt" % (mode, index, position))
-    p = subprocess.run([BIN, mode, "--seed", str(seed), "--index", str(index), "--dump-upto", str(position), "--out", out] + (["--n", str(n)] if mode == "longrun" else []), capture_output=True, text=True)
+    p = subprocess.run([BIN, mode, "--seed", str(seed), "--index", str(index), "--dump-upto", str(position), "--out", out] + list(extra), capture_output=True, text=True)
     if p.returncode != 0 or not os.path.exists(out):
         return None
     with open(out) as f:
@@ -1095,6 +1105,7 @@ def write_evidence(tier, seed, t0, explore, sweeps, hashres, det_ok, det_n, cros
             "acquisitions_of_a_poisoned_lock_by_lock": dict(zip(lock_names, totlist("poisoned_acquisitions_by_lock", 4))),
             "injected_by_generator_class": dict(zip(["-", "F1_err_before_lock", "F2_panic_outside_lock", "F3_panic_inside_month_memo_lock", "F4_panic_inside_eight_char_provider_lock", "F4_panic_inside_child_limit_provider_lock"], totlist("injected_refusals_by_class", 6))),
             "F6_starvation_stretches_over_100_steps": tot("starvation_stretches"),
+            "F6b_long_preemptions_park_policy": {"victims_parked": tot("parks"), "scheduler_steps_sat_out": tot("parked_steps")},
             "F7_restarts_between_runs": tot("resets"),
             "warm_runs_inheriting_memo": tot("warm_runs"),
             "F8_hash_orders": (hashres or {}).get("orders", 0),
